@@ -84,6 +84,11 @@ func init() {
 		var sets [][]string
 		sets = append(sets, []string{"10.0.2.53:11211", "10.0.2.161:11211"}) // share ring location 3152960057
 		sets = append(sets, []string{"10.0.2.53:11211", "10.0.2.161:11211", "10.0.0.1:11211"})
+		// long labels that share a long prefix: full IPv6 addresses of one network, one host on
+		// several ports, long host names
+		sets = append(sets, []string{"[2001:0db8:85a3:0000:0000:8a2e:0370:7334]:11211", "[2001:0db8:85a3:0000:0000:8a2e:0370:7335]:11211", "[2001:0db8:85a3:0000:0000:8a2e:0370:7336]:11211"})
+		sets = append(sets, []string{"[2001:0db8:85a3:0000:0000:8a2e:0370:7334]:11211", "[2001:0db8:85a3:0000:0000:8a2e:0370:7334]:11212", "10.0.0.1:11211"})
+		sets = append(sets, []string{"memcached-eu-west-1a-rack07-node-001", "memcached-eu-west-1a-rack07-node-002", "memcached-eu-west-1a-rack07-node-003", "memcached-eu-west-1a-rack07-node-004"})
 		maxPerm := 4
 		if thorough {
 			maxPerm = 5
